@@ -323,6 +323,7 @@ type sess struct {
 	accepted    [][]byte
 	events      int
 	uncertain   bool // a burst left the outcome open: adopt the observation
+	hadWT       bool // a write deadline expired at some point: accepted bytes need not all arrive
 }
 
 const (
@@ -564,6 +565,7 @@ func faultCase(k *engine.Case) {
 			}
 		case evWriteTimeout:
 			// the deadline of the write in progress expires; the next write arms a new deadline
+			x.hadWT = true
 			if x.pending > 0 {
 				x.ended = true
 			}
@@ -737,6 +739,9 @@ func faultCase(k *engine.Case) {
 				}
 				hasClose, hasSend, hasFault, hasWT := false, false, false, false
 				for _, a := range as {
+					if a.ev == evWriteTimeout {
+						x.hadWT = true
+					}
 					switch a.ev {
 					case evClose:
 						hasClose = true
@@ -813,7 +818,7 @@ func faultCase(k *engine.Case) {
 		k.Count("quiescent_cuts", 1)
 		// local-close flush clause, judged when a reading peer saw nothing but sends and a Close
 		for _, x := range ss {
-			if ok && x.ended && x.closedLocal && x.peerReads && !x.writeBroken && x.events == 1 {
+			if ok && x.ended && x.closedLocal && x.peerReads && !x.writeBroken && !x.hadWT && x.events == 1 {
 				rec, _, _ := x.conn.snapshot()
 				want := bytes.Join(x.accepted, nil)
 				k.Count("flush_checked_local_close", 1)
@@ -837,7 +842,7 @@ func faultCase(k *engine.Case) {
 		}
 		k.Logf("wind-down: s%d close", x.id)
 		before := len(x.accepted)
-		first := x.events == 0 && !x.writeBroken
+		first := x.events == 0 && !x.writeBroken && !x.hadWT
 		x.s.Close()
 		model(act{x: x, ev: evClose}, before)
 		if !d.Quiesce() {
@@ -861,7 +866,7 @@ func faultCase(k *engine.Case) {
 			cleanup()
 			return
 		}
-		if x.events == 1 && x.peerReads && !x.writeBroken {
+		if x.events == 1 && x.peerReads && !x.writeBroken && !x.hadWT {
 			rec, _, _ := x.conn.snapshot()
 			want := bytes.Join(x.accepted, nil)
 			k.Count("flush_checked_local_close", 1)
